@@ -3,7 +3,7 @@
 From Coq Require Import ZArith List Bool Lia.
 From IBL.lib Require Import PyInt.
 From IBL.C17 Require Import Model.
-From IBL.C03 Require Import Model RtLib Proofs Gains Run RunSound.
+From IBL.C03 Require Import Model RtLib Proofs Gains Codec MetaProofs EndToEnd Run RunSound.
 From IBL.C03 Require Rt_050_512 Rt_050_2048 Rt_050_8192 Rt_060_512 Rt_060_2048 Rt_060_8192
                      Rt_062_512 Rt_062_2048 Rt_062_8192 Rt_sync.
 Import ListNotations.
@@ -92,19 +92,31 @@ Theorem C03_split_is_column_subset : forall cap csy napch nsync nc labels ns W d
 Proof. exact pub_split. Qed.
 Print Assumptions C03_split_is_column_subset.
 
-(* ---- lossless split and exact inverse, whenever the value conversion is exact ----
+(* ---- the saved-channel subset string codec ----
+   NP2Reconstructor._get_chans (spikeglx._get_savedChans_subset chns) = chns for every non-empty
+   list of non-negative channel numbers (sorted or not, with or without repeats), at the level of
+   the characters of the string (decimal printing, ':' ranges, ',' separators). *)
+Theorem C03_subset_codec_roundtrip : forall l, l <> [] -> Forall (fun c => 0 <= c) l ->
+  parse_subset (show_subset l) = Some l.
+Proof. exact codec_roundtrip. Qed.
+Print Assumptions C03_subset_codec_roundtrip.
+
+(* ---- lossless split and exact inverse, end to end, whenever the value conversion is exact ----
    every assignment of the AP channels to shank labels, every window size > 576, every
-   reconstruction window size, every rectangular frame. *)
+   reconstruction window size, every rectangular frame: the converter's output is the column
+   subsets; the reconstructor reads each shank's channel list back from the subset string the
+   converter wrote (its own assertion on that list holds) and reproduces the frame. *)
 Theorem C03_split_reconstruct_id : forall cap csy labels ns W Wr data,
   labels <> [] -> 1 <= ns -> 576 < W -> 0 < Wr -> ns = Z.of_nat (length data) ->
   (forall r, In r data -> length r = S (length labels)) ->
   (forall r x, In r data -> In x r -> cap x = x /\ csy x = x) ->
-  exists split,
+  exists split files,
     process_np24 cap csy (Z.of_nat (length labels)) 1 (Z.of_nat (length labels) + 1) labels ns W data
       = Some split /\
     split = split_spec labels (Z.of_nat (length labels) + 1) 1 data /\
-    reconstruct_w Wr (files_of_split split) = Some data.
-Proof. exact pub_roundtrip. Qed.
+    prepare_files labels split = Some files /\
+    reconstruct_w Wr files = Some data.
+Proof. exact pub_e2e. Qed.
 Print Assumptions C03_split_reconstruct_id.
 
 (* ---- the property for NP2 recordings: all int16 sample values x the nine gain settings ---- *)
@@ -113,17 +125,50 @@ Theorem C03_np2_split_lossless_and_inverse : forall g labels ns W data,
   labels <> [] -> 1 <= ns -> 576 < W -> ns = Z.of_nat (length data) ->
   (forall r, In r data -> length r = S (length labels)) ->
   (forall r x, In r data -> In x r -> -32768 <= x <= 32767) ->
-  exists split,
+  exists split files,
     process_np24 (roundtrip (gain_of g)) (roundtrip gain_one)
                  (Z.of_nat (length labels)) 1 (Z.of_nat (length labels) + 1) labels ns W data
       = Some split /\
     split = split_spec labels (Z.of_nat (length labels) + 1) 1 data /\
-    reconstruct (files_of_split split) = Some data.
-Proof.
-  intros g labels ns W data Hg Hl Hns HW Hlen Hr Hv.
-  exact (pub_np2 g labels ns W RECON_WINDOW data Hg Hl Hns HW eq_refl Hlen Hr Hv).
-Qed.
+    prepare_files labels split = Some files /\
+    reconstruct files = Some data.
+Proof. exact pub_np2_e2e. Qed.
 Print Assumptions C03_np2_split_lossless_and_inverse.
+
+(* ---- metadata: the reconstructor's rewrite undoes the converter's ----
+   For a dictionary with unique keys whose acqApLfSy / snsApLfSy start with nch-1, with
+   nSavedChans = nch, fileSizeBytes = fs, snsSaveChanSubset = "0:<nch-1>" and without the three
+   provenance keys: writing a shank's metadata and rewriting it for the reassembled file gives the
+   original dictionary, entry for entry and in order, followed by original_meta = 'False'. *)
+Theorem C03_meta_rewrite_inverse : forall m sh fsz nch fs chns ar sr,
+  NoDup (keys m) ->
+  mget K_acq m = Some (MInts (nch - 1 :: ar)) ->
+  mget K_sns m = Some (MInts (nch - 1 :: sr)) ->
+  mget K_nsaved m = Some (MInt nch) ->
+  mget K_fsize m = Some (MInt fs) ->
+  mget K_subset m = Some (MStr (range_str (nch - 1))) ->
+  ~ In K_subset_orig (keys m) -> ~ In K_origmeta (keys m) -> ~ In K_shank (keys m) ->
+  exists m0, meta_shank_ap m sh chns fsz = Some m0 /\
+             meta_recon m0 nch fs = Some (m ++ [(K_origmeta, MStr str_false)]).
+Proof. exact meta_inverse. Qed.
+Print Assumptions C03_meta_rewrite_inverse.
+
+(* ---- window sizes not above the hard-coded overlap (576) are outside every theorem above.
+   The faithful model shows why: a multiple of 12 below the overlap on a shorter recording gives one
+   window that is not recognised as the last one (nwin = 2), whose stop index W - 288 cuts the
+   chunk: 12 of 200 samples are written (same on the real code, F-C03-b).  W = 576 divides by
+   zero; W < 576 with ns > W never terminates (the model runs out of fuel: None). *)
+Theorem C03_window_below_overlap_refuted : exists ns W,
+  W mod 12 = 0 /\ 0 < W /\ 1 <= ns /\
+  firstlast ns W OVERLAP = Some [(0, ns)] /\
+  kept_list ns W [(0, ns)] 0 = [(0, 12)] /\ 12 < ns /\
+  firstlast 1000 W OVERLAP = None.
+Proof.
+  exists 200, 300. split; [reflexivity|]. split; [lia|]. split; [lia|].
+  split; [vm_compute; reflexivity|]. split; [vm_compute; reflexivity|].
+  split; [lia | vm_compute; reflexivity].
+Qed.
+Print Assumptions C03_window_below_overlap_refuted.
 
 (* ---- glue: the memoised conversion the correspondence runs (Run.run_full) is `roundtrip` itself ---- *)
 Theorem C03_run_memo_sound : forall f vals v, memo_apply f (memo_table f vals) v = f v.
